@@ -2,7 +2,7 @@
    Statements only.  Generic in the conversion tables regenerated from the code, hence valid for
    every total or partial behaviour mapping at once. *)
 From Coq Require Import List ZArith NArith Bool.
-From SV Require Import Sx Str Omap Beat Simfile TimingSrc Convert Generated.Tables Proofs.ConvertFacts.
+From SV Require Import Sx Str Omap Beat Simfile TimingSrc Convert Generated.Tables Proofs.ConvertFacts Proofs.ConvertRound.
 Import ListNotations.
 Open Scope Z_scope.
 
@@ -56,7 +56,6 @@ Proof. exact ssc_to_sm_simfile_no_keyerror. Qed.
 Print Assumptions C17_simfile_level_never_keyerror.
 
 (* every SSC-only key of the blank SSC templates holds its default: what the round trip through sm_to_ssc relies on *)
-Definition ssc_only (inv : list (Z * list str)) (key : str) : bool := existsb (fun e => mem_str key (snd e)) inv.
 Theorem C17_blank_templates_hold_defaults :
   forallb (fun kv => negb (ssc_only Tables.invalid_sm_simfile (fst kv)) ||
                      match decide Tables.invalid_sm_simfile [(1, 3); (2, 3); (3, 3); (4, 3); (5, 3)] (fst kv) (snd kv) with DSkip => true | _ => str_eqb (fst kv) kVERSION end)
@@ -65,6 +64,21 @@ Theorem C17_blank_templates_hold_defaults :
                      match decide Tables.invalid_sm_chart [(2, 3); (4, 3); (5, 3)] (fst kv) (snd kv) with DSkip => true | _ => false end)
           Tables.blank_ssc_chart = true.
 Proof. vm_compute. split; reflexivity. Qed.
+
+(* converting the result of an SM -> SSC conversion back (blank templates, documented default behaviours) succeeds
+   and gives an SM simfile equal to the original on every original property and chart field, for every SM source
+   that holds no SSC-only key and whose charts are the six fields *)
+Theorem C17_roundtrip_from_sm : forall sf charts out cs,
+  NoDupKeys sf -> (forall c, List.In c charts -> NoDupKeys c) ->
+  (forall k, has k sf = true -> ssc_only Tables.invalid_sm_simfile k = false) ->
+  (forall c k, List.In c charts -> has k c = true -> mem_str k Tables.sm_chart_properties = true) ->
+  sm_to_ssc sf charts None None = COk (out, cs) ->
+  exists sm' cs', ssc_to_sm out cs None None [] = COk (sm', cs') /\
+    (forall k v, get k sf = Some v -> get k sm' = Some v) /\
+    length cs' = length charts /\
+    (forall i c, nth_error charts i = Some c -> exists c'', nth_error cs' i = Some c'' /\ forall k v, get k c = Some v -> get k c'' = Some v).
+Proof. exact sm_ssc_sm. Qed.
+Print Assumptions C17_roundtrip_from_sm.
 
 Example C17_example :
   let sf := [(kVERSION, Some [48;46;56;51]); (kBPMS, Some [48;61;49]); ([67;79;77;66;79;83], Some [32;48;46;48;48;48;61;49;10]);
